@@ -114,6 +114,61 @@ def c01(tier, seed):
 
 
 # --------------------------------------------------------------------------------------------
+# C02
+
+FAULT_MODES = [
+    ('nofault', []),
+    ('spurious', ['--f-spurious=0.2']),
+    ('eintr', ['--f-eintr=0.2']),
+    ('wakedelay', ['--f-wake-delay=0.3']),
+    ('enosys', ['--f-enosys=1']),
+    ('realsig', ['--sig-all=1', '--sig-period-us=60']),
+    ('mixed', ['--f-spurious=0.1', '--f-eintr=0.1', '--f-wake-delay=0.1', '--sig-all=1', '--sig-period-us=200']),
+]
+
+
+@prop('C02', 'Grace periods always complete once readers leave: no lost wake-up, no deadlock', 'exploration',
+      'bounded scenarios (every reader performs N sections and leaves); one evaluation = one synchronize_rcu() call; '
+      'verdict = every call returns (completion accounting + stuck-state detector with logical precondition); '
+      'non-trivial = call that overlapped >=1 open reader section; distinct = (configuration+fault mode, '
+      '#pre-existing readers, leader/merged, spun/slept). Evidence lists futex sleeps/wakes observed by the '
+      'syscall shim and the faults injected.',
+      ['liveness restated as bounded progress: no stuck state in K bounded scenarios',
+       'stuck = no progress counter moved for 20 s while a caller is in flight (sections are bounded to a few ms)',
+       'ENOSYS is injected for every futex call of the process (consistent kernel), not for a random subset'])
+def c02(tier, seed):
+    out = []
+    scale = 1 if tier == 'quick' else 40
+    for fl in ('memb', 'mb', 'qsbr'):
+        for i, (fm, fargs) in enumerate(FAULT_MODES):
+            qs = 1 + (seed + i) % 3
+            wt = 1 + (seed + 2 * i) % 3
+            out.append(case('%s-%s' % (fl, fm), 'gp', fl, 'plain',
+                            ['--cfg=%s-%s' % (fl, fm), '--scenarios=%d' % (120 * scale), '--readers=3', '--updaters=3',
+                             '--gps=120', '--reader-sections=400', '--tun-qs=%d' % qs, '--tun-wait=%d' % wt,
+                             '--hook-prob=0.01', '--churn=1'] + fargs, {}, cpus=4, timeout=200 * scale))
+        # single reader / single updater tight loop: the lost wake-up window
+        out.append(case('%s-pair' % fl, 'gp', fl, 'plain',
+                        ['--cfg=%s-pair' % fl, '--scenarios=%d' % (20 * scale), '--readers=1', '--updaters=1',
+                         '--gps=3000', '--reader-sections=0', '--tun-qs=1', '--tun-wait=1', '--reader-delay=0',
+                         '--nest=1', '--hook-prob=0.0005', '--updaters-registered=0'], {}, cpus=2, timeout=200 * scale))
+        out.append(case('%s-tsan' % fl, 'gp', fl, 'tsan',
+                        ['--cfg=%s-tsan' % fl, '--scenarios=%d' % (40 * scale), '--readers=2', '--updaters=3',
+                         '--gps=60', '--reader-sections=200', '--tun-qs=2', '--tun-wait=2', '--f-spurious=0.1',
+                         '--f-eintr=0.1', '--stall-ms=60000', '--churn=1'], {}, cpus=4, timeout=400 * scale))
+    for name, env in (('bp', {}), ('bp-nomb', {'VP_NO_MEMBARRIER': '1'})):
+        out.append(case('%s-poll' % name, 'gp', 'bp', 'plain',
+                        ['--cfg=%s' % name, '--scenarios=%d' % (60 * scale), '--readers=3', '--updaters=3', '--gps=60',
+                         '--reader-sections=300', '--tun-qs=2', '--tun-bp-sleep=1', '--sig-all=1'], env, cpus=4,
+                        timeout=200 * scale))
+    out.append(case('memb-nomb-mixed', 'gp', 'memb', 'plain',
+                    ['--cfg=memb-nomb-mixed', '--scenarios=%d' % (120 * scale), '--readers=3', '--updaters=3', '--gps=120',
+                     '--reader-sections=400', '--tun-qs=2', '--tun-wait=2', '--f-spurious=0.1', '--f-eintr=0.1'],
+                    {'VP_NO_MEMBARRIER': '1'}, cpus=4, timeout=200 * scale))
+    return out
+
+
+# --------------------------------------------------------------------------------------------
 # property modules: every vp/props_*.py registers its harnesses and properties on import
 def _load_modules():
     import importlib
